@@ -165,6 +165,14 @@ class HierDictDocument(DictDocument):
                                                     self.VALID_UNICODE_SOURCES):
             raise ValidationError([key, inst])
 
+        elif inst is not None and issubclass(cls, self.stringified_types) \
+                and getattr(self.get_cls_attrs(cls), 'serialize_as', None) \
+                                                                     is None \
+                and not isinstance(inst, (six.text_type, six.binary_type)):
+            # these are read from their text form. a number, a list etc. is not
+            # a malformed date, it's not a date.
+            raise ValidationError([key, inst])
+
     def _from_dict_value(self, ctx, key, cls, inst, validator):
         if issubclass(cls, XmlModifier):
             # XmlAttribute / XmlData only say where the value goes in an xml
@@ -205,6 +213,21 @@ class HierDictDocument(DictDocument):
                 if cls_attrs.empty_is_none and inst in (u'', b''):
                     inst = None
 
+                if isinstance(inst, six.binary_type) \
+                        and not issubclass(cls, (ByteArray, File)) \
+                        and getattr(cls_attrs, 'serialize_as', None) \
+                                               not in ('bytes', 'bytes_le'):
+                    # text that arrived as a byte string (eg. the bin type of
+                    # msgpack) is validated and parsed like any other text.
+                    try:
+                        if issubclass(cls, Unicode):
+                            inst = self.unicode_from_bytes(cls, inst)
+                        else:
+                            inst = inst.decode(self.string_encoding or 'utf8')
+
+                    except UnicodeError:
+                        raise ValidationError([key, inst])
+
                 if (validator is self.SOFT_VALIDATION
                                         and isinstance(inst, six.string_types)
                                         and not cls.validate_string(cls, inst)):
@@ -237,6 +260,11 @@ class HierDictDocument(DictDocument):
 
                     else:
                         retval = inst
+
+                    if (validator is self.SOFT_VALIDATION
+                                and not isinstance(inst, six.string_types)
+                                and not cls.validate_string(cls, retval)):
+                        raise ValidationError([key, retval])
 
                 else:
                     retval = self.from_serstr(cls, inst)
